@@ -8,6 +8,7 @@ pub mod c07;
 pub mod c11;
 pub mod c12;
 pub mod c13;
+pub mod c16;
 pub mod c18;
 pub mod c19;
 pub mod c20;
@@ -32,6 +33,7 @@ pub const REGISTRY: &[Entry] = &[
     Entry { id: "C07", level: "exploration", main: c07::main, replay: c07::replay },
     Entry { id: "C12", level: "exploration", main: c12::main, replay: c12::replay },
     Entry { id: "C13", level: "fault_enumeration", main: c13::main, replay: c13::replay },
+    Entry { id: "C16", level: "exploration", main: c16::main, replay: c16::replay },
     Entry { id: "C18", level: "exploration", main: c18::main, replay: c18::replay },
     Entry { id: "C19", level: "exploration", main: c19::main, replay: c19::replay },
     Entry { id: "C20", level: "exploration", main: c20::main, replay: c20::replay },
